@@ -87,7 +87,10 @@ def detect_one(mid):
         if rc != 0:
             return mid, {"error": "patch does not apply on current HEAD: " + o[-200:]}
         res = {}
-        for p in PROPS:
+        props = PROPS
+        if os.environ.get("MUT_OWN"):
+            props = [mid.split("-")[0]] + [x for x in os.environ["MUT_OWN"].split(",") if x.startswith("C")]
+        for p in props:
             rc, o = sh("%s -m sa check %s --tier quick --no-evidence" % (PY, p), cwd=VERIF, env={"SA_REPO": wt})
             viol = [l for l in o.splitlines() if l.startswith("VIOLATION")]
             rules = sorted(set(l.split("rule ")[1].split(":")[0] for l in o.splitlines() if ": rule " in l))
@@ -107,6 +110,9 @@ def detect(ids):
         for mid, res in ex.map(detect_one, ids):
             mp = os.path.join(VERIF, "seeded", mid, "meta.json")
             meta = json.load(open(mp))
+            if os.environ.get("MUT_OWN"):
+                print("%-8s %s" % (mid, res if res else "MISSED"))
+                continue
             meta["checks_run"] = "all 20 quick checks with SA_REPO=<scratch worktree with the patch applied>"
             meta["detected_by"] = res
             own = meta["property"]
